@@ -1,8 +1,13 @@
 //! Implement a lock-free pair of base_time_ms and corresponding voucher
 //! with two copies and a sequence number.
+#[cfg(not(woodpile_verif))]
 use std::sync::atomic::AtomicU64;
 use std::sync::atomic::Ordering;
+#[cfg(not(woodpile_verif))]
 use std::sync::Mutex;
+
+#[cfg(woodpile_verif)]
+use crate::verif_sync::{AtomicU64, Mutex};
 
 #[derive(Debug)]
 struct BaseTime {
@@ -176,6 +181,21 @@ impl AtomicBaseTime {
         self.snapshots[idx].update(update.0, update.1);
         self.sequence.store(next, Ordering::Release); // Commit the write
         true
+    }
+}
+
+#[cfg(woodpile_verif)]
+impl AtomicBaseTime {
+    /// Addresses of [lock, sequence, base_time 0, voucher 0, base_time 1, voucher 1].
+    pub fn verif_addrs(&self) -> [usize; 6] {
+        [
+            self.lock.verif_addr(),
+            self.sequence.verif_addr(),
+            self.snapshots[0].base_time_ms.verif_addr(),
+            self.snapshots[0].voucher.verif_addr(),
+            self.snapshots[1].base_time_ms.verif_addr(),
+            self.snapshots[1].voucher.verif_addr(),
+        ]
     }
 }
 
